@@ -537,7 +537,19 @@ impl<'a> Parser<'a> {
             .map(|tok| (tok.spelling, tok.range))
         {
             let (next_word, next_range) = self
-                .match_and_consume(|tok: &Token| is_word(tok.spelling))
+                .match_and_consume(|tok: &Token| {
+                    // any word will do as the noun, keywords included, but not what the lexer rejected as a
+                    // word (`x1`, `_`), a number or a suffix
+                    is_word(tok.spelling)
+                        && !matches!(
+                            tok.id,
+                            TokenType::Error(_)
+                                | TokenType::Number(_)
+                                | TokenType::ApostropheS
+                                | TokenType::ApostropheRE
+                                | TokenType::ApostropheNApostrophe
+                        )
+                })
                 .map(|tok| (tok.spelling, tok.range))
                 .ok_or_else(|| {
                     self.new_parse_error(ParseErrorCode::MissingIDAfterCommonPrefix(prefix.into()))
